@@ -640,6 +640,17 @@ impl ByteViewArrayDecoderDeltaLength {
         // Delta length encoding has continuous strings, we can validate utf8 in one go
         if self.validate_utf8 {
             check_valid_utf8(&self.data[initial_offset..current_offset])?;
+            // ... but a character must not straddle two values: every value has to start
+            // at a character boundary of the validated range
+            let mut start_offset = initial_offset;
+            for length in src_lengths {
+                if start_offset < current_offset && (self.data[start_offset] as i8) < -0x40 {
+                    return Err(ParquetError::General(
+                        "encountered non UTF-8 data".to_string(),
+                    ));
+                }
+                start_offset += *length as usize;
+            }
         }
 
         self.data_offset = current_offset;
@@ -722,6 +733,15 @@ impl ByteViewArrayDecoderDelta {
             let mut utf8_validation_buffer = Vec::with_capacity(4096);
 
             let v = self.decoder.read(len, |bytes| {
+                // the buffers are validated as a whole below: a character must not straddle
+                // two values, so every value has to start at a character boundary
+                if let Some(&b) = bytes.first() {
+                    if (b as i8) < -0x40 {
+                        return Err(ParquetError::General(
+                            "encountered non UTF-8 data".to_string(),
+                        ));
+                    }
+                }
                 let offset = array_buffer.len();
                 let view = make_view(bytes, buffer_id, offset as u32);
                 if bytes.len() > 12 {
